@@ -192,6 +192,62 @@ pub fn miri_stage(ctx: &Ctx, build_dir: &Path) -> (u64, Option<Value>, Option<St
     (0, Some(report), Some(format!("Miri run was inconclusive: {}", stderr.lines().last().unwrap_or(""))))
 }
 
+/// C08, both tiers: targeted valid inputs that drive the big-integer code through its rarely taken
+/// branches (sparse-limb integers, powers of two near a boundary, Lemire's fallback, the digit limits,
+/// maximal big integers) are generated natively and parsed under Miri (tree borrows) in the stack and heap
+/// configurations.  Miri sees what sanitizers cannot: reads of never-written `MaybeUninit` limbs.
+pub fn miri_targeted_stage(ctx: &Ctx, build_dir: &Path) -> (u64, Option<Value>, Option<String>) {
+    if ctx.id != "C08" {
+        return (0, None, None);
+    }
+    let count: u64 = if ctx.tier.name() == "quick" { 24 } else { 400 };
+    let file = build_dir.join(format!("c08t-{}.txt", ctx.seed));
+    let me = std::env::current_exe().expect("current_exe");
+    let st = Command::new(&me).args(["c08t-inputs", &ctx.seed.to_string(), &count.to_string(), file.to_str().unwrap()]).status();
+    if !matches!(st, Ok(s) if s.success()) {
+        return (0, None, Some("cannot generate the targeted Miri inputs".into()));
+    }
+    let harness = ctx.verif_dir.join("harness");
+    let start = Instant::now();
+    let out = Command::new("cargo")
+        .current_dir(&harness)
+        .args(["+nightly", "miri", "run", "-q", "-p", "mlv", "--bin", "mlv-miri", "--", "C08T", file.to_str().unwrap()])
+        .env("MIRIFLAGS", "-Zmiri-tree-borrows -Zmiri-disable-isolation -Zmiri-no-extra-rounding-error")
+        .env("CARGO_TARGET_DIR", build_dir.join("miri"))
+        .env("CARGO_NET_OFFLINE", "true")
+        .stdin(Stdio::null())
+        .output();
+    let out = match out {
+        Ok(o) => o,
+        Err(e) => return (0, None, Some(format!("cannot run Miri: {e}"))),
+    };
+    let stdout = String::from_utf8_lossy(&out.stdout).to_string();
+    let stderr = String::from_utf8_lossy(&out.stderr).to_string();
+    let last = stdout.lines().filter(|l| l.starts_with("MIRI-CASE")).last().unwrap_or("").to_string();
+    let report = json!({"engine": "Miri (tree borrows) on targeted valid inputs, stack and heap configurations", "inputs": count,
+                        "families": ["G-N x3", "G-P", "G-M", "G-G f32 at MAX_DIGITS", "G-G f64 at MAX_DIGITS", "big-bigint"],
+                        "wall_s": start.elapsed().as_secs_f64(), "ok": out.status.success()});
+    if out.status.success() && stdout.contains("MIRI-OK C08T") {
+        return (0, Some(report), None);
+    }
+    if stderr.contains("Undefined Behavior") || stdout.contains("MIRI-VIOLATION") {
+        // keep the single failing input as the replay file
+        let idx: usize = last.split_whitespace().nth(2).and_then(|s| s.parse().ok()).unwrap_or(0);
+        let line = std::fs::read_to_string(&file).ok().and_then(|t| t.lines().nth(idx).map(|l| l.to_string())).unwrap_or_default();
+        std::fs::create_dir_all(ctx.verif_dir.join("replays")).ok();
+        let fp = crate::gen::mix(line.bytes().fold(0u64, |h, b| h.wrapping_mul(131).wrapping_add(b as u64)));
+        let path = ctx.verif_dir.join("replays").join(format!("C08-miri-{:016x}.json", fp));
+        let detail: String = stderr.lines().filter(|l| l.contains("Undefined Behavior") || l.contains("-->")).take(6).collect::<Vec<_>>().join(" | ");
+        let doc = json!({"property": "C08", "message": format!("Miri reported undefined behaviour on a valid input: {detail}"),
+                         "case": {"kind": "miri-c08t", "input_line": line, "detail": detail}});
+        let _ = std::fs::write(&path, serde_json::to_string_pretty(&doc).unwrap());
+        eprintln!("miri (targeted): {detail}");
+        println!("VIOLATION property=C08 replay={}", path.display());
+        return (1, Some(report), None);
+    }
+    (0, Some(report), Some(format!("targeted Miri stage was inconclusive: {}", stderr.lines().last().unwrap_or(""))))
+}
+
 /// 32-bit-limb stage (C05, C14): the crate picks `Limb = u32` (with its own copy of 5^135 and 9-digit
 /// chunks) from `target_pointer_width`, which no feature flag can select on this x86_64 machine; Miri can
 /// interpret the i686 build.  Limb-width dependent constants + generated boundary inputs judged by the exact
@@ -375,6 +431,11 @@ pub fn run(ctx: &Ctx) -> i32 {
     if let Some(e) = merr {
         harness_error.get_or_insert(e);
     }
+    let (tv, miri_targeted_report, terr) = miri_targeted_stage(ctx, &build_dir);
+    violations += tv;
+    if let Some(e) = terr {
+        harness_error.get_or_insert(e);
+    }
     if violations == 0 {
         if let Some(e) = harness_error {
             eprintln!("HARNESS-ERROR property={} {}", ctx.id, e);
@@ -415,6 +476,9 @@ pub fn run(ctx: &Ctx) -> i32 {
     coverage.insert("fuzz".into(), json!(fuzz_reports));
     if let Some(m) = miri_report {
         coverage.insert("miri".into(), m);
+    }
+    if let Some(m) = miri_targeted_report {
+        coverage.insert("miri_targeted".into(), m);
     }
     coverage.insert(
         "note".into(),
